@@ -506,3 +506,32 @@ KCOMP = Harness(
     stubs=STUBS_COMMON,
 )
 HARNESSES.append(KCOMP)
+
+
+# ------------------------------------------------------------------------------ J-race (scenario shared with C19)
+def _jrace_fn(a, tier):
+    from . import c19 as _c19
+
+    return _c19._race(a, tier, 1)
+
+
+def _jrace_params(tier):
+    from . import c19 as _c19
+
+    return _c19.race_params(tier)
+
+
+JRACE = Harness(
+    prop="C04",
+    name="J-race",
+    fn=guard(_jrace_fn),
+    params=_jrace_params,
+    cube=lambda tier: 3,
+    title="one injected coroutine function called concurrently from two contexts whose first parameter is factory-generated: each context keeps its own product",
+    bound_text=lambda tier: "as C19 J-race: two tasks in two contexts call the same @inject coroutine function with two injected parameters (the first static / sync-factory / async-factory, "
+    "the second from an async factory awaiting 0-2 checkpoints) under arbitrary schedule prefixes",
+    oracle="the generated object handed to the injected call is the one belonging to the calling context (what its other lookup APIs return)",
+    outside="more than two concurrent calls",
+    stubs=STUBS_COMMON,
+)
+HARNESSES.append(JRACE)
